@@ -21,9 +21,11 @@
     keys compare equal.  `not_groupby_naive` proves the negation on the confirmed witness
     (keys 1, 1(uint64), 1. with limit 2); `groupby_naive_partial` holds under the guard
     `KeysTypeHomogeneousOrNoSpill`.
-  * `sorted_release_safe_partial`: the early release of the sorted-input mode, for every
-    batching, on the in-memory path (guard: no spill — release from spill files while input
-    is still arriving is not modelled).  Its hypothesis — sorted on the FIRST key — is needed
+  * `sorted_release_safe_partial`: the early release of the sorted-input mode WITH spills
+    (maxTableKey / maxSpillKey gating, release from the merged spill files), for every batching,
+    every limit and every row maxSpillKey may be taken from; guard: comparator faithful on the
+    keys present (the spill-merge defect again); `sorted_release_safe_nospill` is the unguarded
+    statement for the in-memory path.  The hypothesis — sorted on the FIRST key — is needed
     (`not_sorted_release_safe_unsorted`), and the code establishes it: since fix 32e95e058 the
     optimizer declares a summarize's input sorted only when the sort key is its first key;
     `sorted_declared_on_first_key_only` re-checks that on the regenerated facts.
@@ -39,7 +41,11 @@ import Zed.Generated.C10
 import Zed.Proofs.AggMonoid
 import Zed.Proofs.AggGroupby
 import Zed.Proofs.AggSorted
+import Zed.Proofs.AggSortedSpill
+import Zed.Model.AggSortedSpill
 import Zed.Proofs.AggJoin
+import Zed.Proofs.AggJoinPlan
+import Zed.Model.AggJoinPlan
 namespace Zed.Props.C10
 open Zed.Agg
 open Zed.Proofs
@@ -278,12 +284,31 @@ example : spillCount natAdd witnessLe 1 [((0, 1), 1), ((0, 2), 1), ((0, 3), 1), 
 section sorted
 variable {K S P : Type} [DecidableEq K]
 
-/-- FULL statement `sorted_release_safe`: in sorted-input mode (any batching, any limit) early
-    release never loses or duplicates a group.
-    **sorted_release_safe_partial**: proved for the in-memory path (guard: no spill): if the
-    input is sorted on the primary key in the declared direction, then for every batching the
-    output has exactly one row per distinct key with the aggregate of exactly its rows. -/
-theorem sorted_release_safe_partial (m : Mon S) (hm : m.CommLaws) (prim : K → P) (vle : P → P → Bool)
+/-- **sorted_release_safe_partial** — sorted-input mode WITH spills: for every batching, every
+    table limit (every spill pattern) and every choice of the row maxSpillKey is taken from
+    (`pick`: the real code takes the last row of the spilled table in Go map order): if the input
+    is sorted on the primary key, early release — from the table before the first spill, from
+    the front of the merged spill files afterwards, gated by maxSpillKey — never loses or
+    duplicates a group: exactly one output row per distinct key, holding the aggregate of exactly
+    its rows.
+    FULL statement: the same without `hfaith`.  It is false for the same reason as
+    `groupby_naive` (the spill merge re-combines rows whose keys merely compare equal: known
+    finding); the guard is the semantic form of KeysTypeHomogeneous: the comparator identifies
+    only identical keys among the keys present. -/
+theorem sorted_release_safe_partial (m : Mon S) (hm : m.CommLaws)
+    (le : K → K → Bool) (hle : TotalPreorder le)
+    (prim : K → P) (vle : P → P → Bool) (hv : TotalPreorder vle)
+    (hprim : ∀ a b, le a b = true → vle (prim a) (prim b) = true)
+    (pick : List (K × S) → Option (K × S)) (hpick : ∀ l x, pick l = some x → x ∈ l)
+    (limit : Nat) (batches : List (List (K × S)))
+    (hsorted : batches.flatten.Pairwise (fun a b => vle (prim a.1) (prim b.1) = true))
+    (hfaith : AggGroupby.CompareFaithful le batches.flatten) :
+    GroupsAgree m (groupbySortedSpill m le prim vle pick limit batches) batches.flatten :=
+  AggSortedSpill.sorted_spill_release_safe m hm le hle prim vle hv hprim pick hpick limit batches hsorted hfaith
+
+/-- **sorted_release_safe_nospill** — full strength (no guard on the comparator) on the in-memory
+    path: when no spill happens the release from the table is safe for every batching. -/
+theorem sorted_release_safe_nospill (m : Mon S) (hm : m.CommLaws) (prim : K → P) (vle : P → P → Bool)
     (hv : TotalPreorder vle) (batches : List (List (K × S)))
     (hsorted : batches.flatten.Pairwise (fun a b => vle (prim a.1) (prim b.1) = true)) :
     GroupsAgree m (groupbySorted m prim vle batches) batches.flatten :=
@@ -334,6 +359,46 @@ theorem not_join_naive_unsorted :
       Zed.Join.mergeJoin (fun a b : Int => decide (a ≤ b)) .inner l r ≠
         Zed.Join.nestedLoop (fun a b : Int => decide (a ≤ b)) .inner l r :=
   ⟨[(2, ()), (1, ())], [(1, ()), (2, ())], by decide, by decide⟩
+
+/-! ### join planning: sides, directions, inserted sorts -/
+
+section joinplan
+open Zed.Join
+
+/-- T1: for a right join the kernel swaps keys, parents AND declared directions before join.New
+    (the model's `joinFull .right` does exactly that). -/
+theorem right_style_swaps : Zed.Generated.C10.rightStyleSwaps = Zed.Join.rightStyleSwaps := by decide
+
+/-- **join_right_left_symmetry**: a right join is the left join of the swapped inputs with the
+    swapped legs (declared directions included), row by row. -/
+theorem join_right_left_symmetry {A B : Type} (lleg rleg : Leg) (l : List (JKey × A)) (r : List (JKey × B)) :
+    joinFull .right lleg rleg l r = (joinFull .left rleg lleg r l).map AggJoinPlan.flipRow :=
+  AggJoinPlan.join_right_left_symmetry lleg rleg l r
+
+/-- FULL statement (false, see `not_join_plan_naive_desc_nulls`): for every combination of declared
+    directions and inserted sorts the planned join equals the nested loop.
+    **join_plan_naive_partial**: proved for ascending plans (no side declared descending): whatever
+    is declared ascending really is, the other sides get the inserted ascending sort. -/
+theorem join_plan_naive_partial {A B : Type} (kind : Zed.Join.Kind) (ld rd : Int)
+    (l : List (JKey × A)) (r : List (JKey × B))
+    (hld : ld = 0 ∨ ld = 1) (hrd : rd = 0 ∨ rd = 1)
+    (hl : ld = 1 → l.Pairwise (fun a b => jle false a.1 b.1 = true))
+    (hr : rd = 1 → r.Pairwise (fun a b => jle false a.1 b.1 = true)) :
+    joinRun kind ld rd l r =
+      nestedLoop (jle false) kind (if ld = 1 then l else sortOp false l) (if rd = 1 then r else sortOp false r) :=
+  AggJoinPlan.join_plan_naive_asc kind ld rd l r hld hrd hl hr
+
+/-- The confirmed defect at plan level (known finding C10:join:null-keys-declared-desc): with both
+    legs sorted by a descending sort operator (nulls last) the join, whose comparator expects nulls
+    first, loses the pair of null keys that the ascending plan finds. -/
+theorem not_join_plan_naive_desc_nulls :
+    joinFull .inner .sortDesc .sortDesc [(some 2, 0), (some 1, 1), (none, 2)] [(some 2, 10), (none, 11)]
+      = [.both (some 2, 0) (some 2, 10)] ∧
+    joinFull .inner .sortAsc .sortAsc [(some 2, 0), (some 1, 1), (none, 2)] [(some 2, 10), (none, 11)]
+      = [.both (some 2, 0) (some 2, 10), .both (none, 2) (none, 11)] := by
+  constructor <;> decide
+
+end joinplan
 
 example : ([(1, ()), (2, ()), (2, ())] : List (Int × Unit)).Pairwise
     (fun a b => decide (a.1 ≤ b.1) = true) := by decide
